@@ -389,8 +389,13 @@ def build_gfa1(r, opts=None):
             if not ok:
                 used_names.discard(pn)
                 continue
+            single = all(len(by_ends.get(ends_key(f, fo, t, to), [])) == 1 for (f, fo), (t, to) in steps)
             if not ovs or (all(x == "*" for x in ovs) and not circular and chance(r, 0.6)):
                 ovf = "*"
+            elif single and o.get("star_paths", True) and chance(r, 0.25):
+                # overlaps left unspecified in the path although the links specify them
+                # (valid: a placeholder matches any overlap; only when one link joins the ends)
+                ovf = "*" if not circular else ",".join("*" for _ in ovs)
             else:
                 ovf = ",".join(ovs)
             paths.append(["P", [pn, ",".join(s + o_ for s, o_ in walk), ovf], tags("P")])
@@ -547,8 +552,10 @@ def build_gfa2(r, opts=None):
         for _ in range(r.randint(0, 3)):
             if chance(r, 0.5):
                 # ordered group over segments / edges / earlier ordered groups
-                pool = named["S"] + named["E"] + named["O"]
+                pool = named["S"] + named["E"] + named["O"] + named["G"]
                 items = [choice(r, pool) + choice(r, "+-") for _ in range(r.randint(1, 4))]
+                if all(i[:-1] in named["G"] for i in items):
+                    items.append(choice(r, named["S"]) + "+")  # never a group of gaps only
                 pid = "*"
                 if chance(r, 0.7):
                     n = fresh_name()
